@@ -2,6 +2,12 @@ NOTES = ('Bounded-exhaustive model checking of the real implementation; see DESI
          'Known genuine defects are listed in known_findings.json.')
 NOT_APPLICABLE = {}
 CHECKS = {
+ 'C08': dict(engine='E3', design_ref='4/C08',
+    technique='exhaustive enumeration (full product of model x laminate x flag base x orders x state letters x Gauss letters x laminate-table forms; assembly compositions x panel order x state) on the real calc_fint/calc_kT against the reference energy gradient/Hessian at the same quadrature points and against finite differences of the package itself along a complete basis',
+    text='For every element: tangent symmetric; internal force and tangent equal the gradient and Hessian of U(c) evaluated by an independent quadrature reference; '
+         'tangent equals the central-difference Jacobian of the package internal force along every basis direction with a tolerance tied to the non-linear part; fint(0)=0, fint(eps c) -> K0 c, kT(0)=K0; '
+         'closed-path work zero; assemblies: fint = sum fint_p + k_conn c, kT = sum kT_p + k_conn, tangent == derivative of the assembly force.',
+    note='states are letters (zero, infinitesimal, moderate, large, in-plane, out-of-plane) with seeded generic directions; quick prunes the product, thorough runs it fully'),
  'C11': dict(engine='E3', design_ref='4/C11',
     technique='exhaustive enumeration: full product model x flag base x orders x point-set letters with a complete unit-amplitude basis plus generic amplitude letters; complete product thread counts 1..16 x point counts 1..33; assembly/bay compositions; real field kernels vs the reference Ritz series and Donnell kinematics',
     text='Displacements, rotations, strains (with and without quadratic slope terms) and stress resultants returned by the public API are compared point-wise with the reference series; '
